@@ -94,19 +94,14 @@ func keyGroupRanges(keyGroupCount, rangeCount int) []KeyGroupRange {
 // the value is a list of KegGroup indices assigned from the `from`
 // KeyGroupRanges.
 func AssignRanges(to []KeyGroupRange, from []KeyGroupRange) [][]int {
+	// The `from` ranges come in the order the previous operators acknowledged
+	// their checkpoint, not in range order, so every pair is compared.
 	assignments := make([][]int, len(to))
-	fromIdx := 0
 	for toIdx, toRange := range to {
-		// Advance fromIdx to the first possible overlap
-		for fromIdx < len(from) && from[fromIdx].End <= toRange.Start {
-			fromIdx++
-		}
-		j := fromIdx
-		for j < len(from) && from[j].Start < toRange.End {
-			if toRange.Overlaps(from[j]) {
-				assignments[toIdx] = append(assignments[toIdx], j)
+		for fromIdx, fromRange := range from {
+			if toRange.Overlaps(fromRange) {
+				assignments[toIdx] = append(assignments[toIdx], fromIdx)
 			}
-			j++
 		}
 	}
 	return assignments
